@@ -26,6 +26,10 @@ type Job struct {
 	Extra      json.RawMessage `json:"extra,omitempty"`
 	NoMinimise bool            `json:"no_minimise,omitempty"`
 	Known      []Violation     `json:"known,omitempty"` // known findings: not minimised, no replay file
+	// SubMod / SubRem shard the sub-runs (fault points) of a base run over several workers: a worker executes
+	// the sub-runs whose index is SubRem modulo SubMod (0 = all)
+	SubMod int `json:"sub_mod,omitempty"`
+	SubRem int `json:"sub_rem,omitempty"`
 }
 
 // RunRecord is one line of worker output.
